@@ -3,7 +3,7 @@
 From Coq Require Import String.
 From Coq Require Import List Strings.Byte NArith ZArith Bool.
 Require Import Bytes Show Tables Codec Norm CleanPath Chain.
-Require Serve Rot Ser ResetLang ResetModel ResetClass Range UriSplit TrailerKeys.
+Require Serve Rot Ser ResetLang ResetModel ResetClass Range UriSplit TrailerKeys Rd.
 Import ListNotations.
 
 Definition arg (args : list bs) (i : nat) : bs := nth i args [].
@@ -54,6 +54,7 @@ Definition entries : list (bs * (list bs -> bs)) := [
   (B "set_trailers", fun a => TrailerKeys.show_trailers (TrailerKeys.set_trailers (arg a 0)));
   (B "parse_byte_range", fun a => Range.show_range (Range.parse_byte_range (arg a 0) (parse_Z (arg a 1))));
   (B "parse_uint_buf", fun a => Range.show_pu (Range.parse_uint_buf (arg a 0)));
+  (B "rd_script", fun a => Rd.rd_script a);
   (B "ci_compare", fun a => show_bool (TrailerKeys.ci_compare (arg a 0) (arg a 1)));
   (B "normalize_header_key", fun a => TrailerKeys.normalize_header_key (arg a 0))
 ].
